@@ -20,6 +20,7 @@ instance : LinearOrderedAddCommMonoidWithTop Cost where
   min := fun a b => if a ≤ b then a else b
   max := fun a b => if a ≤ b then b else a
   toDecidableLE := Cost.decLe
+  toDecidableEq := inferInstance
   nsmul := nsmulRec
   add_assoc := by intro a b c; cases a <;> cases b <;> cases c <;> simp [add_def, Cost.add, Nat.add_assoc]
   zero_add := by intro a; cases a <;> simp [add_def, Cost.add] <;> rfl
